@@ -194,6 +194,11 @@ func (env *c05Env) register(r rRoute) {
 		st := c.Request().Context().Value(c05CtxKey{}).(*c05ReqState)
 		st.obs.kind = 0
 		st.obs.hid = hid
+		if v := c.Get(echo.ContextKeyHeaderAllow); v != nil {
+			// the router leaves the Allow value of a 405 / automatic OPTIONS answer in the store of THAT request only;
+			// a request that is dispatched to a route has none
+			st.obs.store = append(st.obs.store, "allow-value-of-another-request", fmt.Sprint(v))
+		}
 		failed, silent := false, false
 		for _, op := range st.prog {
 			switch op.Kind {
@@ -370,7 +375,7 @@ func (env *c05Env) serve3(id int, q rReq, prog []c05HOp, probe bool) (ro c05Obs,
 		req = req.WithContext(contextWith(req, st))
 		rec := httptest.NewRecorder()
 		env.e.ServeHTTP(rec, req)
-		if st.obs.kind == 1 && (rec.Code == http.StatusMethodNotAllowed || (rec.Code == http.StatusNoContent && rec.Header().Get("Allow") != "")) {
+		if st.obs.kind == 1 && (rec.Code == http.StatusMethodNotAllowed || (rec.Code == http.StatusNoContent && rec.Result().Header.Get("Allow") != "")) {
 			st.obs.kind = 2
 		}
 	}()
@@ -461,6 +466,31 @@ func c05Run(ci any) Result {
 		jobs = append(jobs, job{reqID, *s.Req, s.Prog, append([]rRoute(nil), routes...)})
 		var o c05Obs
 		var inner []c05Inner
+		if c.Concurrent == 0 && reqID == 2 && len(c.Steps)%2 == 0 {
+			// between two requests the application also registers a route with MORE parameters than any other on a
+			// host router, and serves a request for that host: no later request may fail, the new one included
+			func() {
+				defer func() {
+					if r := recover(); r != nil {
+						fail(fmt.Sprintf("request for a route registered on a host router between requests failed: %v", r))
+					}
+				}()
+				ran := false
+				env.e.Host("many.example").GET("/h/:a/:b/:c/:d/:e/:f/:g/:h/:i", func(c echo.Context) error {
+					ran = len(c.ParamValues()) == 9 && c.Param("i") == "9"
+					return c.NoContent(http.StatusOK)
+				})
+				rq := httptest.NewRequest("GET", "/h/1/2/3/4/5/6/7/8/9", nil)
+				rq.Host = "many.example"
+				rq = rq.WithContext(contextWith(rq, &c05ReqState{id: 5000}))
+				rec := httptest.NewRecorder()
+				env.e.ServeHTTP(rec, rq)
+				if !ran {
+					fail(fmt.Sprintf("route registered on a host router between requests was not served: status %d", rec.Code))
+				}
+			}()
+			tags = append(tags, "host-route-with-more-params-registered")
+		}
 		if c.Concurrent == 0 {
 			if (reqID*7+len(s.Req.Path))%4 == 0 {
 				// the application borrows a context from the pool (Echo.AcquireContext), uses it for work of its
